@@ -150,13 +150,51 @@ def _shape():
 
 class Captured(list):
     shape = None
+    classes = ()
+
+
+def _library_classes():
+    out = []
+    for name in sorted(m for m in sys.modules if _is_pyasn1_module(m)):
+        mod = sys.modules[name]
+        if mod is None:
+            continue
+        for k, v in sorted(vars(mod).items()):
+            if isinstance(v, type) and getattr(v, '__module__', None) == name:
+                out.append(v)
+    return out
 
 
 def capture():
-    """Shallow copies of every enumerated container (call while the process is pristine)."""
+    """Shallow copies of every enumerated container, and the attribute tables of the library's classes (call
+    while the process is pristine)."""
     c = Captured((label, obj, obj.copy()) for label, obj in containers())
     c.shape = _shape()
+    c.classes = [(cls, dict(vars(cls))) for cls in _library_classes()]
     return c
+
+
+def _restore_classes(captured):
+    """Class attributes added or rebound since the capture (a lazily cached codec, a flag) are removed / put back."""
+    moved = []
+    for cls, saved in captured.classes:
+        cur = vars(cls)
+        for k in list(cur):
+            if k.startswith('__') and k.endswith('__'):
+                continue
+            if k not in saved:
+                try:
+                    delattr(cls, k)
+                    moved.append('%s.%s' % (cls.__name__, k))
+                except (AttributeError, TypeError):
+                    pass
+            elif cur[k] is not saved[k]:
+                try:
+                    setattr(cls, k, saved[k])
+                    moved.append('%s.%s' % (cls.__name__, k))
+                except (AttributeError, TypeError):
+                    pass
+    return moved
 
 
 def moved(captured):
@@ -194,4 +232,5 @@ def restore(captured):
             obj.extend(saved)
         else:
             obj.update(saved)
+    moved.extend(_restore_classes(captured))
     return moved
